@@ -240,7 +240,8 @@ Qed.
 Theorem osu_rate_scaled r f : wf_osu_file f = true -> osu_rate r f = osu_file_scaled r f.
 Proof.
   unfold wf_osu_file. intro H. apply andb_true_iff in H. destruct H as [Hl Hs].
-  unfold osu_rate, osu_file_scaled, py_div. rewrite (rate_scales r _ Hl), (col_div_offset_scales r _ Hs). reflexivity.
+  unfold osu_rate, osu_file_scaled, osu_preview_rate, preview_scaled, py_div, PREVIEW_UNSET.
+  rewrite (rate_scales r _ Hl), (col_div_offset_scales r _ Hs). reflexivity.
 Qed.
 
 Lemma mapset_rate_scaled r cs : forallb (forallb wf_ulist) cs = true -> mapset_rate r cs = map (rate_spec r) cs.
@@ -270,11 +271,14 @@ Qed.
 Theorem osu_file_fields_scale r f : wf_osu_file f = true ->
   of_lists (osu_rate r f) = rate_spec r (of_lists f) /\
   of_samples (osu_rate r f) = scale_ulist r (of_samples f) /\
-  of_preview (osu_rate r f) == of_preview f / r /\
+  (of_preview f == -1 -> of_preview (osu_rate r f) = of_preview f) /\
+  (~ of_preview f == -1 -> of_preview (osu_rate r f) == of_preview f / r) /\
   of_meta (osu_rate r f) = of_meta f.
 Proof.
-  intro H. rewrite (osu_rate_scaled r f H). cbn [osu_file_scaled of_lists of_samples of_preview of_meta].
-  repeat split; try reflexivity. apply Qred_correct.
+  intro H. rewrite (osu_rate_scaled r f H). cbn [osu_file_scaled of_lists of_samples of_preview of_meta]. unfold preview_scaled.
+  split; [reflexivity|]. split; [reflexivity|]. split; [|split; [|reflexivity]].
+  - intro E. apply Qeq_bool_iff in E. rewrite E. reflexivity.
+  - intro N. destruct (Qeq_bool (of_preview f) (-1)) eqn:E; [apply Qeq_bool_iff in E; contradiction|apply Qred_correct].
 Qed.
 
 Theorem sm_file_fields_scale r f : wf_sm_file f = true ->
@@ -339,7 +343,8 @@ Proof. intros Ha Hb. apply Qeq_bool_iff. rewrite !Qred_correct. field. split; as
 Theorem osu_file_rate_one f : wf_osu_file f = true -> osu_file_eqb (osu_rate 1 f) f = true.
 Proof.
   intro H. rewrite (osu_rate_scaled 1 f H). unfold osu_file_eqb. cbn [osu_file_scaled of_lists of_samples of_preview of_meta].
-  rewrite rate_one, scale_one_u, qdiv_one, cells_eqb_refl. reflexivity.
+  rewrite rate_one, scale_one_u, cells_eqb_refl. unfold preview_scaled.
+  destruct (Qeq_bool (of_preview f) (-1)); [rewrite Qeq_bool_refl|rewrite qdiv_one]; reflexivity.
 Qed.
 Theorem sm_file_rate_one f : wf_sm_file f = true -> sm_file_eqb (sm_mapset_rate 1 f) f = true.
 Proof.
@@ -350,13 +355,36 @@ Proof.
 Qed.
 
 (* rate a then rate b = rate a*b on the file-level fields too *)
+(* On the preview value the composition needs a guard: a TIME p with p / a = -1 (p = -a, a negative preview time) becomes the
+   value -1 after the first rate change and is then taken for the marker by the second one (the code compares with -1). *)
+Lemma preview_compose a b p : ~ a == 0 -> ~ b == 0 -> (p == -1 \/ ~ p == - a) ->
+  Qeq_bool (preview_scaled b (preview_scaled a p)) (preview_scaled (a * b) p) = true.
+Proof.
+  intros Ha Hb G. unfold preview_scaled. destruct (Qeq_bool p (-1)) eqn:E.
+  - rewrite E. apply Qeq_bool_refl.
+  - assert (N : ~ p == -1) by (intro X; apply Qeq_bool_iff in X; congruence).
+    destruct G as [G|G]; [contradiction|].
+    assert (E2 : Qeq_bool (Qred (p / a)) (-1) = false).
+    { apply not_true_is_false. intro X. apply Qeq_bool_iff in X. rewrite Qred_correct in X. apply G.
+      setoid_replace p with (p / a * a) by (field; exact Ha). rewrite X. ring. }
+    rewrite E2. apply qdiv_compose; assumption.
+Qed.
 Theorem osu_file_rate_compose a b f : wf_osu_file f = true -> ~ a == 0 -> ~ b == 0 ->
+  (of_preview f == -1 \/ ~ of_preview f == - a) ->
   osu_file_eqb (osu_rate b (osu_rate a f)) (osu_rate (a * b) f) = true.
 Proof.
-  intros H Ha Hb. rewrite (osu_rate_scaled a f H), (osu_rate_scaled b _ (scaled_osu_wf a f H)), (osu_rate_scaled (a * b) f H).
+  intros H Ha Hb G. rewrite (osu_rate_scaled a f H), (osu_rate_scaled b _ (scaled_osu_wf a f H)), (osu_rate_scaled (a * b) f H).
   unfold osu_file_eqb. cbn [osu_file_scaled of_lists of_samples of_preview of_meta].
-  rewrite rate_compose, scale_compose_u, qdiv_compose, cells_eqb_refl by assumption. reflexivity.
+  rewrite rate_compose, scale_compose_u, preview_compose, cells_eqb_refl by assumption. reflexivity.
 Qed.
+(* in particular for every chart without a preview point or with one at a time >= 0, and positive rates *)
+Corollary osu_file_rate_compose_pos a b f : wf_osu_file f = true -> 0 < a -> 0 < b ->
+  (of_preview f == -1 \/ 0 <= of_preview f) ->
+  osu_file_eqb (osu_rate b (osu_rate a f)) (osu_rate (a * b) f) = true.
+Proof.
+  intros H Ha Hb G. apply osu_file_rate_compose; [exact H|lra|lra|]. destruct G as [G|G]; [left; exact G|right; lra].
+Qed.
+
 Theorem sm_file_rate_compose a b f : wf_sm_file f = true -> ~ a == 0 -> ~ b == 0 ->
   sm_file_eqb (sm_mapset_rate b (sm_mapset_rate a f)) (sm_mapset_rate (a * b) f) = true.
 Proof.
@@ -367,39 +395,67 @@ Proof.
   destruct (sf_offset f); cbn [option_map opt_q_eqb]; [rewrite qdiv_compose by assumption|]; reflexivity.
 Qed.
 
-(* ---- osu's "no preview point" marker.  The code divides preview_time whatever it holds: the marker -1 becomes -1/r,
-   which is a preview point (and OsuMapMeta writes int(-1/r): "PreviewTime: 0" for every r > 1).  So the reading of the
-   property under which a chart without a preview point has none after the rate change is REFUTED for the faithful model;
-   it holds whenever the chart has a preview point at a non-negative time, and at rate 1. ---- *)
+(* ---- osu's "no preview point" marker.  Since repo commit 09d92a7 the code keeps the marker -1 and divides every other
+   value.  The OLD model divided whatever the value held: -1 became -1/r, a preview point (written "PreviewTime: 0" for
+   r > 1) - stated about osu_rate_OLD.  What holds now: a chart without a preview point has none afterwards; a chart with
+   a preview point p has it at p / r unless p / r = -1 (p = -r: a negative time that lands on the marker). ---- *)
 Definition wit_unset_preview : osu_file :=
   mkOsuFile [mkUlist [0; 1]%Z [[CNum 1000; CNum 1]]; mkUlist [0; 3; 4]%Z [[CNum 0; CNum 120; CNum 4]]]
             (mkUlist [0; 1001; 1002]%Z []) (-1) [].
-Theorem osu_preview_unset_kept_refuted :
+Theorem OLD_osu_preview_unset_refuted :
   exists f r, wf_osu_file f = true /\ 0 < r /\ preview_point (of_preview f) = None /\
-              of_preview (osu_rate r f) = (-1 # 2) /\ preview_point (of_preview (osu_rate r f)) = Some (-1 # 2) /\
-              preview_scaled_strict r (of_preview f) (of_preview (osu_rate r f)) = false.
+              of_preview (osu_rate_OLD r f) = (-1 # 2) /\ preview_point (of_preview (osu_rate_OLD r f)) = Some (-1 # 2) /\
+              preview_scaled_strict r (of_preview f) (of_preview (osu_rate_OLD r f)) = false.
 Proof. exists wit_unset_preview, 2. vm_compute. repeat split; reflexivity. Qed.
+(* ... and the current model keeps the marker on that witness *)
+Theorem osu_preview_former_witness_ok :
+  of_preview (osu_rate 2 wit_unset_preview) = -1 /\
+  preview_scaled_strict 2 (of_preview wit_unset_preview) (of_preview (osu_rate 2 wit_unset_preview)) = true.
+Proof. vm_compute. split; reflexivity. Qed.
 
-Theorem osu_preview_point_scales r f : 0 < r -> 0 <= of_preview f ->
+(* a chart without a preview point has none after the rate change: the stored value is literally unchanged *)
+Theorem osu_preview_unset_kept r f : preview_point (of_preview f) = None ->
+  of_preview (osu_rate r f) = of_preview f /\ preview_point (of_preview (osu_rate r f)) = None.
+Proof.
+  unfold preview_point. cbn [osu_rate of_preview]. unfold osu_preview_rate.
+  destruct (Qeq_bool (of_preview f) PREVIEW_UNSET) eqn:E; [|discriminate]. intros _. rewrite E. split; reflexivity.
+Qed.
+(* the strict reading, exact guard: it fails only for a preview TIME p = -r *)
+Theorem osu_preview_strict r f : ~ r == 0 -> (of_preview f == -1 \/ ~ of_preview f == - r) ->
   preview_scaled_strict r (of_preview f) (of_preview (osu_rate r f)) = true.
 Proof.
-  intros Hr Hp. cbn [osu_rate of_preview]. unfold preview_scaled_strict, preview_point, py_div, PREVIEW_UNSET.
-  assert (Hq : 0 <= of_preview f / r).
-  { unfold Qdiv. apply Qmult_le_0_compat; [exact Hp|]. apply Qlt_le_weak, Qinv_lt_0_compat. exact Hr. }
+  intros Hr G. cbn [osu_rate of_preview]. unfold preview_scaled_strict, preview_point, osu_preview_rate, py_div, PREVIEW_UNSET.
   destruct (Qeq_bool (of_preview f) (-1)) eqn:E1.
-  { apply Qeq_bool_iff in E1. lra. }
-  destruct (Qeq_bool (Qred (of_preview f / r)) (-1)) eqn:E2.
-  { apply Qeq_bool_iff in E2. rewrite Qred_correct in E2. lra. }
-  cbn [option_map opt_q_eqb]. apply Qeq_bool_iff. apply Qred_correct.
+  - rewrite E1. reflexivity.
+  - assert (N : ~ of_preview f == -1) by (intro X; apply Qeq_bool_iff in X; congruence).
+    destruct G as [G|G]; [contradiction|].
+    assert (E2 : Qeq_bool (Qred (of_preview f / r)) (-1) = false).
+    { apply not_true_is_false. intro X. apply Qeq_bool_iff in X. rewrite Qred_correct in X. apply G.
+      setoid_replace (of_preview f) with (of_preview f / r * r) by (field; exact Hr). rewrite X. ring. }
+    rewrite E2. cbn [option_map opt_q_eqb]. apply Qeq_bool_iff. apply Qred_correct.
 Qed.
+Theorem osu_preview_strict_refuted :
+  exists f r, wf_osu_file f = true /\ 0 < r /\ of_preview f = -2 /\ of_preview (osu_rate r f) = -1 /\
+              preview_scaled_strict r (of_preview f) (of_preview (osu_rate r f)) = false.
+Proof.
+  exists (mkOsuFile (of_lists wit_unset_preview) (of_samples wit_unset_preview) (-2) []), 2. vm_compute. repeat split; reflexivity.
+Qed.
+Theorem osu_preview_point_scales r f : 0 < r -> (of_preview f == -1 \/ 0 <= of_preview f) ->
+  preview_scaled_strict r (of_preview f) (of_preview (osu_rate r f)) = true.
+Proof. intros Hr G. apply osu_preview_strict; [lra|]. destruct G as [G|G]; [left; exact G|right; lra]. Qed.
 Theorem osu_preview_rate_one f : preview_scaled_strict 1 (of_preview f) (of_preview (osu_rate 1 f)) = true.
 Proof.
-  cbn [osu_rate of_preview]. unfold preview_scaled_strict, preview_point, py_div, PREVIEW_UNSET.
-  assert (E : Qred (of_preview f / 1) == of_preview f) by (rewrite Qred_correct; field).
-  destruct (Qeq_bool (of_preview f) (-1)) eqn:E1.
-  - apply Qeq_bool_iff in E1. assert (E2 : Qeq_bool (Qred (of_preview f / 1)) (-1) = true) by (apply Qeq_bool_iff; rewrite E; exact E1).
-    rewrite E2. reflexivity.
-  - assert (E2 : Qeq_bool (Qred (of_preview f / 1)) (-1) = false).
-    { apply not_true_is_false. intro X. apply Qeq_bool_iff in X. rewrite E in X. apply Qeq_bool_iff in X. congruence. }
-    rewrite E2. cbn [option_map opt_q_eqb]. apply Qeq_bool_iff. rewrite E. field.
+  destruct (Qeq_bool (of_preview f) (-1)) eqn:E.
+  - apply osu_preview_strict; [lra|left; apply Qeq_bool_iff; exact E].
+  - apply osu_preview_strict; [lra|right]. intro X. assert (Y : of_preview f == -1) by (rewrite X; ring).
+    apply Qeq_bool_iff in Y. congruence.
+Qed.
+(* composition on the preview value is refuted without the guard: p = -2, rate 2 then rate 2 gives -1 (kept by the second
+   call), rate 4 gives -1/2 *)
+Theorem osu_file_rate_compose_refuted :
+  exists f a b, wf_osu_file f = true /\ 0 < a /\ 0 < b /\ of_preview f = -2 /\
+                of_preview (osu_rate b (osu_rate a f)) = -1 /\ of_preview (osu_rate (a * b) f) = (-1 # 2) /\
+                osu_file_eqb (osu_rate b (osu_rate a f)) (osu_rate (a * b) f) = false.
+Proof.
+  exists (mkOsuFile (of_lists wit_unset_preview) (of_samples wit_unset_preview) (-2) []), 2, 2. vm_compute. repeat split; reflexivity.
 Qed.
